@@ -16,7 +16,7 @@ type PredefinedTopics map[string]map[uint16]string
 
 // Add adds a new predefined topic to the map.
 func (t PredefinedTopics) Add(clientID, topicName string, topicID uint16) {
-	if _, ok := t[clientID]; !ok {
+	if m, ok := t[clientID]; !ok || m == nil {
 		t[clientID] = map[uint16]string{}
 	}
 	t[clientID][topicID] = topicName
@@ -66,7 +66,9 @@ func (t PredefinedTopics) GetTopicID(clientID, topic string) (uint16, bool) {
 // the given map (src) values take precedence.
 func (t PredefinedTopics) Merge(src PredefinedTopics) {
 	for clientID := range src {
-		if _, ok := t[clientID]; !ok {
+		// A client without any topic (e.g. "client1:" with an empty body in the
+		// predefined topics file) has a nil map which cannot be written to.
+		if dst, ok := t[clientID]; !ok || dst == nil {
 			t[clientID] = src[clientID]
 			continue
 		}
